@@ -27,6 +27,7 @@ RULE = ("(sequential) ALL operation sequences of length <= 5 (thorough: 6) over 
         "failures/cancellation. Without a lock: every awaiter gets the value of some successful run and after "
         "quiescence accesses are served from the cache (the last stored value) without running the getter. "
         "one evaluation = one history / one executed schedule; distinct = history or (scenario, trace)")
+RULE += (" Also: planned failures of every standard exception type (KeyError, AttributeError, ...), falsy exception instances, falsy property values (None, 0, False, '') in sequential histories; falsy lock objects.")
 ASSUMPTIONS = ["awaiting a handle taken while a value was cached returns that value (unspecified after del; accepted)",
                "the getter's own suspensions are the only scheduling points besides lock waits"]
 EXHAUSTIVE_SUBSPACES = 'all operation sequences of length <= 5 (thorough: 6) over 7 operations; DFS-complete schedule sets for the scenarios counted in scenarios_explored_exhaustively'
